@@ -295,7 +295,7 @@ shape("run_process_results", "src/codemodder/context.py", ["C09", "C10", "C04", 
        "CodemodExecutionContext.add_unfixed_findings"],
       doc="process_results and the four add_* aggregators keyed by codemod id")
 shape("run_process_dependencies", "src/codemodder/context.py", ["C09", "C04", "C14"],
-      "process_deps_shape", "process_deps_form", "FirstStoreWinsBreak", ["CodemodExecutionContext.process_dependencies"],
+      "process_deps_shape", "process_deps_form", "FirstStoreWinsBreak", ["CodemodExecutionContext.process_dependencies", "CodemodExecutionContext._writable_package_stores"],
       doc="process_dependencies: first store that yields a change set wins")
 shape("run_add_failure", "src/codemodder/file_context.py", ["C10", "C15"],
       "add_failure_shape", "add_failure_form", "AllFindingsUnfixedLine0",
